@@ -21,12 +21,21 @@ RULE = ("stage 1: for every registered constructor, schema-directed values (all 
         "schema line) and the bytes compared; stage 2: the schema-defined bytes are decoded by the real code and "
         "must give the value back, nil-sensitively for conditional slices (present and empty = empty non-nil, absent = nil); "
         "for every conditional string / int / long / double / Bool field the schema bytes with that field present "
-        "holding the zero value (which no Go value marshals to) are decoded as well; byte strings at the boundary lengths 0..5, 252..257, 65535, 65536 (thorough: "
-        "2^24-1, 2^24); 128/256-bit integer fields of every constructor that has them with the numbers 0, 1, all ones, 1 / 2 / 8 / 16 / "
+        "holding the zero value (which no Go value marshals to) are decoded as well; byte strings at the boundary lengths 0..5, 252..257, 65535, 65536, 2^24 (thorough: "
+        "2^24-1, 2^24+1); 128/256-bit integer fields of every constructor that has them with the numbers 0, 1, all ones, 1 / 2 / 8 / 16 / "
         "all-but-one leading zero bytes and the two numbers around the half width on every run; values inside gzip_packed, alone "
         "and as the result of an rpc_result (c02.gz: tl.Marshal's bytes, packed by the harness, through DecodeUnknownObject), "
         "with a string / bytes parameter of 0..70000 bytes, of 2^24-4200 and 2^24-1 bytes and two of more than 2^23 bytes each "
-        "(the object unpacks to more than 2^24 bytes; thorough: ten sizes around 2^24). distinct = distinct operation lines")
+        "(the object unpacks to more than 2^24 bytes; thorough: ten sizes around 2^24); values with SHARING (c02.enc ... alias: "
+        "the value is hash-consed after parsing, so that equal sub-objects of the tree are ONE Go pointer / slice - two fields of "
+        "one object, two elements of one vector incl. u, x, u, positions at different depths, shared slices and byte strings; "
+        "c02.enc ... distinct is the control) against the schema-defined bytes of the tree; c02.big: a string, a bytes, a "
+        "Vector<string> element and a Vector<bytes> element parameter of constructors drawn from the registry with 0, 1, 252..257, "
+        "65535..65537 bytes and at the limit of the format (2^24-1: byte-exact; 2^24, 2^24+5: refused; quick: the limit for every "
+        "kind and the neighbours for the string parameter, thorough: 2^24-2..2^24+5 for every kind), through tl.Marshal (a "
+        "bytes.Buffer) and through tl.NewEncoder(w).PutVector over a writer that has Write and nothing else; c02.str with the byte "
+        "string as []byte (PutMessage), as a Go string (PutString) and as the element of a []string (PutVector), into a "
+        "bytes.Buffer and into a plain writer. distinct = distinct operation lines")
 
 
 def run(ctx):
@@ -73,6 +82,16 @@ def run(ctx):
                                               "why": "a value inside gzip_packed: real code: %s; schema-defined bytes / decoder model: %s" % (g[:200], l[:200])},
                                              "gzip_packed: tl.Marshal vs the schema-defined serialisation, DecodeUnknownObject of the packed form")
                 continue
+            if op.startswith("c02.big "):
+                # a string / bytes / Vector<string> / Vector<bytes> parameter of the length the last tokens say, through
+                # tl.Marshal or an Encoder over a plain writer: length and digest of the bytes, or the refusal
+                if l.startswith("enc=notInSchema"):
+                    skipped += 1
+                elif l != g:
+                    ctx.report_failing_input({"op": op[:100000], "out": g[:400],
+                                              "why": "a long string / bytes parameter: real code: %s; schema-defined serialisation (enc=err: the value is too large for the format and must be refused): %s" % (g[:200], l[:200])},
+                                             "stage 1 (long byte strings in parameters): tl.Marshal / Encoder vs the serialisation the schema line defines")
+                continue
             if not op.startswith("c02.enc "):
                 if l != g:
                     ctx.report_failing_input({"op": op, "out": g, "why": "real code: %s; schema-defined: %s" % (g[:200], l[:200])},
@@ -82,8 +101,10 @@ def run(ctx):
                 skipped += 1
                 continue
             if l != g:
+                shared = ("the value has ONE Go object at several positions (alias: equal sub-objects of the tree shown are the same pointer / slice); " 
+                          if op.endswith(" alias") else "")
                 ctx.report_failing_input({"op": op, "out": g[:400],
-                                          "why": "bytes differ from the schema-defined serialisation: " + l[:400]},
+                                          "why": shared + "bytes differ from the schema-defined serialisation: " + l[:400]},
                                          "stage 1: tl.Marshal vs the serialisation the schema line defines")
                 continue
             if l.startswith("enc=") and l not in ("enc=err", "enc=panic"):
